@@ -2,7 +2,11 @@ package stdreg
 
 import (
 	"fmt"
+	"os"
+	"path/filepath"
+	"regexp"
 	"sort"
+	"strings"
 	"testing"
 
 	"pgregory.net/rapid"
@@ -61,4 +65,51 @@ func trunc(s string) string {
 		return s[:160]
 	}
 	return s
+}
+
+// TestComplete compares the registry with the function values declared in the
+// library's source (development aid: reads /repo, or $VERIF_REPO).
+func TestComplete(t *testing.T) {
+	root := os.Getenv("VERIF_REPO")
+	if root == "" {
+		root = "/repo"
+	}
+	files, _ := filepath.Glob(filepath.Join(root, "cty/function/stdlib/*.go"))
+	decl := regexp.MustCompile(`(?m)^var ([A-Za-z0-9]+Func) = function\.New`)
+	want := map[string]bool{}
+	for _, f := range files {
+		if strings.HasSuffix(f, "_test.go") {
+			continue
+		}
+		b, err := os.ReadFile(f)
+		if err != nil {
+			t.Fatal(err)
+		}
+		for _, m := range decl.FindAllStringSubmatch(string(b), -1) {
+			want[m[1]] = true
+		}
+	}
+	if len(want) == 0 {
+		t.Skip("library source not found")
+	}
+	var src []byte
+	mine, _ := filepath.Glob("fam_*.go")
+	for _, f := range mine {
+		b, _ := os.ReadFile(f)
+		src = append(src, b...)
+	}
+	for name := range want {
+		if !strings.Contains(string(src), "stdlib."+name) {
+			t.Errorf("library function value %s is not registered", name)
+		}
+	}
+	n := 0
+	for _, e := range All() {
+		if !strings.HasPrefix(e.Name, "to/") {
+			n++
+		}
+	}
+	if n != len(want) {
+		t.Errorf("registry has %d plain functions, library declares %d", n, len(want))
+	}
 }
